@@ -341,7 +341,7 @@ def candidate_sweep(pid, cfg, already_violated, tier="quick"):
     lines, rc = [], 0
     try:
         import witness
-        results = witness.sweep(pid, cfg, REPO, generated=(tier == "thorough"))
+        results = witness.sweep(pid, cfg, REPO, generated=("thorough" if tier == "thorough" else "quick"))
     except Exception as e:
         return {"error": str(e)}, [f"note: candidate inputs could not be replayed: {e}"], 0
     # an input that is the witness of a listed known finding is expected to fail: it is not a new violation
